@@ -84,7 +84,15 @@ def gen_items(rng, depth=0, maxn=4):
     return items
 
 
-LANGS = ["en", "fr", "ru", "ar", "pl", "ja", "cy", "he"]
+LANGS = ["en", "fr", "ru", "ar", "pl", "ja", "cy", "he", "pt", "pt-PT"]   # pt-PT has plural rules of its own (0 is `other`)
+
+
+def lang_of(loc):
+    """the entry of LANGS whose CLDR plural rules the locale uses, or None"""
+    if loc == "pt-PT" or loc.startswith("pt-PT-"):
+        return "pt-PT"
+    l = loc.split("-")[0]
+    return l if l in LANGS else None
 PCOUNTS = [0, 1, 2, 3, 5, 11, 21, 22, 100, 101]          # around the category changes of en/fr/ru/ar/pl, cardinal and ordinal
 FORMS = ["zero", "one", "two", "few", "many"]
 COUNTS = [0, 1, 2, 5, 7, 100]
@@ -270,7 +278,7 @@ def gen_project(rng, n_keys, locales, namespaces=None, wide=False, inherits=None
     p.locales = list(locales)
     p.namespaces = list(namespaces) if namespaces else None
     p.keys = []
-    with_plurals = all(l.split("-")[0] in LANGS for l in p.locales)
+    with_plurals = all(lang_of(l) for l in p.locales)
     groups = [()]
     for g in range(max(1, n_keys // 6)):
         parent = rng.choice(groups)
@@ -334,7 +342,7 @@ def gen_project(rng, n_keys, locales, namespaces=None, wide=False, inherits=None
         for ordinal in (False, True):
             t = PKey(len(p.keys), ((p.namespaces[0],) if p.namespaces else ()) + ("p%d" % len(p.keys),))
             for loc in p.locales:
-                forms = {f: (gen_items(rng, 1, 2) or [("T", f)]) for f in FORMS if rng.random() < 0.5}
+                forms = {f: (gen_items(rng, 1, 2) or [("T", f)]) for f in FORMS if rng.random() < 0.5 or (f == "one" and not ordinal)}
                 f = rng.choice(FORMS + ["other"])
                 forms[f] = forms.get(f, []) + [("V", _w(rng), "count", _w(rng), None), ("T", " " + f)]
                 forms["other"] = forms.get("other") or [("T", "other")]
